@@ -49,6 +49,7 @@ fn main() {
         "C10" => checks::c10::run(&tier, only.as_ref()),
         "C11" => checks::c11::run(&tier, only.as_ref()),
         "C14" => checks::c14::run(&tier, only.as_ref()),
+        "C16" => checks::c16::run(&tier, only.as_ref()),
         "C08" => checks::c08::run(&tier, only.as_ref()),
         "C03" => checks::c03::run(&tier, only.as_ref()),
         _ => {
